@@ -56,6 +56,28 @@ pub fn parse_repeated_field<T: crate::traits::SwiftField>(
     })
 }
 
+/// Field 50 of a sequence that documents two party fields 50a in a row: the instructing party
+/// (options C, L) optionally followed by a second party (creditor A/K, ordering customer
+/// F/G/H).  Each is read only when the field 50 that comes next carries one of its options, so
+/// that both may be present, and the second family reports any option it does not know.
+pub fn parse_instructing_party_and<P: SwiftField, Q: SwiftField>(
+    parser: &mut MessageParser,
+) -> Result<(Option<P>, Option<Q>), ParseError> {
+    let mut instructing_party = None;
+    if let Some(variant) = parser.peek_field_variant("50")
+        && (variant == "C" || variant == "L")
+    {
+        instructing_party = parser.parse_optional_variant_field::<P>("50")?;
+    }
+    let second_party = match parser.peek_field_variant("50") {
+        // a second instructing party is not the second family: the completeness check reports it
+        Some(variant) if instructing_party.is_some() && (variant == "C" || variant == "L") => None,
+        Some(_) => parser.parse_optional_variant_field::<Q>("50")?,
+        None => None,
+    };
+    Ok((instructing_party, second_party))
+}
+
 /// Verify that all content in the parser has been consumed.
 /// Returns error if unparsed content remains.
 pub fn verify_parser_complete(parser: &MessageParser) -> Result<(), ParseError> {
